@@ -39,6 +39,11 @@ type C02Case struct {
 	Delayed   []C02Delay  `json:"delayed"`
 	// Meta: the receiver is a meta-process (addressed by its alias; its mailbox is unbounded)
 	Meta bool `json:"meta,omitempty"`
+	// Late: a second receiver "late" is being spawned (SpawnRegister, Init with scheduling points and
+	// self-sends) while the senders already address it by name (ops with mode "late")
+	Late     bool `json:"late,omitempty"`
+	LateFail bool `json:"late_fail,omitempty"` // its Init fails
+	LateSelf bool `json:"late_self,omitempty"` // its Init sends a message to itself
 }
 
 type c02 struct{}
@@ -49,12 +54,12 @@ func (c02) ID() string    { return "C02" }
 func (c02) Level() string { return "exploration" }
 func (c02) NewCase() any  { return &C02Case{} }
 func (c02) Nontrivial() []string {
-	return []string{"send-while-receiver-running", "refused-mailbox-full", "fallback-taken", "cancel-after-fire", "cancel-before-fire"}
+	return []string{"send-while-receiver-running", "refused-mailbox-full", "fallback-taken", "cancel-after-fire", "cancel-before-fire", "accepted-during-init"}
 }
 func (c02) Rule() string {
 	return "case = receiver (mailbox size, fallback setting, slow/fast handler, self-sends in Init) + 2-6 concurrent senders " +
 		"(node-API clients and actors) with 1-8 sends each over pid/name/alias, three priorities, requests, trapped exit signals, events, " +
-		"plus delayed sends with a cancel instant; every interleaving decision is drawn by the seeded scheduler. " +
+		"plus delayed sends with a cancel instant; in one case out of four a second receiver is being spawned under a registered name while senders already address that name (accepted before Init returned => handled after it); every interleaving decision is drawn by the seeded scheduler. " +
 		"A run is non-trivial when at least one send completed while the receiver was running, was refused, took the fallback, or a cancel raced a delayed send; " +
 		"distinct = distinct (schedule hash, history hash)."
 }
@@ -94,6 +99,28 @@ func (c02) Generate(r *simkit.Rand, tier string) any {
 			s.Ops = append(s.Ops, op)
 		}
 		c.Senders = append(c.Senders, s)
+	}
+	if !c.Meta && r.Chance(0.25) {
+		c.Late = true
+		c.LateFail = r.Chance(0.2)
+		c.LateSelf = r.Bool()
+		if r.Bool() {
+			// a single message for the late receiver, nothing after it: if it is accepted while Init
+			// is still running, nothing but the runtime itself can wake the receiver up for it
+			i := r.Intn(len(c.Senders))
+			op := C02Op{Mode: "late", Prio: simkit.Pick(r, 0, 1, 2)}
+			c.Senders[i].Ops = append([]C02Op{op}, c.Senders[i].Ops...)
+		} else {
+			for i := range c.Senders {
+				for j, n := 0, r.Range(1, 3); j < n; j++ {
+					op := C02Op{Mode: "late", Prio: simkit.Pick(r, 0, 0, 1, 2)}
+					k := r.Intn(len(c.Senders[i].Ops) + 1)
+					ops := append([]C02Op{}, c.Senders[i].Ops[:k]...)
+					ops = append(ops, op)
+					c.Senders[i].Ops = append(ops, c.Senders[i].Ops[k:]...)
+				}
+			}
+		}
 	}
 	for i, n := 0, simkit.Pick(r, 0, 0, 1, 2, 3); i < n; i++ {
 		d := C02Delay{Mode: simkit.Pick(r, "pid", "name", "alias"), DelayMs: simkit.Pick(r, 1, 10, 10, 50, 200)}
@@ -140,6 +167,20 @@ func (c02) Shrink(cc any) []any {
 		n.InitSelf = 0
 		out = append(out, n)
 	}
+	if c.Late {
+		n := cloneJSON(c)
+		n.Late, n.LateFail = false, false
+		for i := range n.Senders {
+			var ops []C02Op
+			for _, op := range n.Senders[i].Ops {
+				if op.Mode != "late" {
+					ops = append(ops, op)
+				}
+			}
+			n.Senders[i].Ops = ops
+		}
+		out = append(out, n)
+	}
 	if c.Slow {
 		n := cloneJSON(c)
 		n.Slow = false
@@ -164,10 +205,11 @@ func (c02) Shrink(cc any) []any {
 }
 
 type c02Handled struct {
-	mu  sync.Mutex
-	rcv map[int]int // id -> times handled by the receiver
-	fb  map[int]int // id -> times handled by the fallback
-	bad []string
+	mu   sync.Mutex
+	late map[int]int // id -> times handled by the late receiver
+	rcv  map[int]int // id -> times handled by the receiver
+	fb   map[int]int // id -> times handled by the fallback
+	bad  []string
 }
 
 type c02Result struct {
@@ -209,7 +251,7 @@ func (c02) Run(e *simkit.Env, cc any) {
 		return
 	}
 
-	hd := &c02Handled{rcv: map[int]int{}, fb: map[int]int{}}
+	hd := &c02Handled{rcv: map[int]int{}, fb: map[int]int{}, late: map[int]int{}}
 	var rcvPID gen.PID
 	var rcvAlias gen.Alias
 	var results []c02Result
@@ -339,6 +381,41 @@ func (c02) Run(e *simkit.Env, cc any) {
 		}
 	}
 
+	// late receiver: spawned while the senders run
+	var latePID gen.PID
+	var lateErr error
+	lateInitDone := false
+	if c.Late {
+		lh := &Hooks{Name: "late", Env: e, Slow: true, Trap: true}
+		lh.Init = func(p *Probe, args ...any) error {
+			e.Gate("late:init")
+			if c.LateSelf {
+				if err := p.Send(p.PID(), 9500); err != nil {
+					e.Fail("C02/refused-with-room", "self-send in Init of the late receiver failed: %v", err)
+				}
+			}
+			e.Gate("late:init-end")
+			lateInitDone = true
+			if c.LateFail {
+				return fmt.Errorf("late init fails")
+			}
+			return nil
+		}
+		lh.Message = func(p *Probe, from gen.PID, m any) error {
+			if id, ok := m.(int); ok {
+				e.Logf("late handled id=%d", id)
+				hd.mu.Lock()
+				hd.late[id]++
+				hd.mu.Unlock()
+			}
+			return nil
+		}
+		e.Go("late-spawner", func() {
+			latePID, lateErr = n.SpawnRegister("late", ProbeFactory(lh), gen.ProcessOptions{})
+			e.Logf("late receiver spawned: %v", lateErr)
+		})
+	}
+
 	// senders
 	runOps := func(who string, base int, ops []C02Op, p *Probe) {
 		for j, op := range ops {
@@ -352,6 +429,8 @@ func (c02) Run(e *simkit.Env, cc any) {
 				to = gen.Atom("rcv")
 			case "alias":
 				to = rcvAlias
+			case "late":
+				to = gen.Atom("late")
 			}
 			switch {
 			case op.Mode == "call":
@@ -366,6 +445,9 @@ func (c02) Run(e *simkit.Env, cc any) {
 				res.err = n.SendWithPriority(to, id, prioOf(op.Prio))
 			}
 			observe()
+			if op.Mode == "late" && res.err == nil && !lateInitDone {
+				e.Probe("accepted-during-init")
+			}
 			record(res)
 		}
 	}
@@ -473,6 +555,12 @@ func (c02) Run(e *simkit.Env, cc any) {
 	}
 
 	// ---- oracles ----
+	// no handler of this workload panics: a panic raised by code of the repository means a send
+	// neither reported success nor an error
+	if ps := e.InternalPanics(); len(ps) > 0 {
+		e.Fail("C02/send-panicked", "code of the repository panicked while messages were sent or handled: %s", ps[0])
+		return
+	}
 	hd.mu.Lock()
 	defer hd.mu.Unlock()
 	for _, b := range hd.bad {
@@ -483,6 +571,9 @@ func (c02) Run(e *simkit.Env, cc any) {
 	perQueue[0] += c.InitSelf + len(c.Delayed)
 	for _, s := range c.Senders {
 		for _, op := range s.Ops {
+			if op.Mode == "late" {
+				continue
+			}
 			if op.Mode != "event" {
 				perQueue[queueOf(op)]++
 			} else {
@@ -496,6 +587,26 @@ func (c02) Run(e *simkit.Env, cc any) {
 	for _, r := range results {
 		nr, nf := hd.rcv[r.id], hd.fb[r.id]
 		switch {
+		case r.op.Mode == "late":
+			nl := hd.late[r.id]
+			if nr+nf != 0 {
+				e.Fail("C02/wrong-delivery", "id=%d addressed to the name \"late\" was handled by another process", r.id)
+				return
+			}
+			switch {
+			case r.err != nil && nl != 0:
+				e.Fail("C02/refused-but-handled", "%s late id=%d returned %v but was handled %d times by the late receiver", r.who, r.id, r.err, nl)
+				return
+			case r.err != nil && !errors.Is(r.err, gen.ErrProcessUnknown) && !(c.LateFail && errors.Is(r.err, gen.ErrProcessTerminated)):
+				e.Fail("C02/spurious-error", "%s late id=%d: send to a name that is being registered (unbounded mailbox) failed with %v", r.who, r.id, r.err)
+				return
+			case r.err == nil && nl > 1:
+				e.Fail("C02/accepted-not-handled-once", "%s late id=%d reported success and was handled %d times", r.who, r.id, nl)
+				return
+			case r.err == nil && nl == 0 && !c.LateFail:
+				e.Fail("C02/accepted-not-handled-once", "%s late id=%d (prio %d) reported success - the receiver was being spawned and stays alive - but was never handled", r.who, r.id, r.op.Prio)
+				return
+			}
 		case r.op.Mode == "event":
 			if r.err != nil {
 				e.Fail("C02/spurious-error", "SendEvent id=%d with the valid token failed: %v", r.id, r.err)
@@ -581,6 +692,33 @@ func (c02) Run(e *simkit.Env, cc any) {
 		default:
 			if nr+nf > 1 {
 				e.Fail("C02/delayed-not-once", "delayed send %d was delivered %d times", i, nr+nf)
+				return
+			}
+		}
+	}
+	if c.Late {
+		nl := hd.late[9500]
+		switch {
+		case c.LateFail:
+			if lateErr == nil {
+				e.Fail("C02/wrong-delivery", "SpawnRegister of the late receiver succeeded although its Init failed")
+				return
+			}
+		case lateErr != nil:
+			e.Fail("C02/spurious-error", "SpawnRegister of the late receiver failed: %v", lateErr)
+			return
+		case c.LateSelf && nl != 1:
+			e.Fail("C02/self-send-in-init", "the self-send made in Init of the late receiver was handled %d times", nl)
+			return
+		default:
+			info, err := n.ProcessInfo(latePID)
+			if err != nil {
+				e.Fail("C02/receiver-gone", "the late receiver is gone at quiescence: %v", err)
+				return
+			}
+			q := info.MailboxQueues
+			if q.Main != 0 || q.System != 0 || q.Urgent != 0 || q.Log != 0 || info.State != gen.ProcessStateSleep {
+				e.Fail("C02/lost-wakeup", "late receiver at quiescence: state=%s mailbox main=%d system=%d urgent=%d log=%d", info.State, q.Main, q.System, q.Urgent, q.Log)
 				return
 			}
 		}
